@@ -527,12 +527,18 @@ func (t *Tree) checkRecursion(n *node, ruleReached []bool) bool {
 		ruleReached[id] = false
 		return consumes
 	case TypeAlternate:
+		/* every alternative is tried at the same position */
+		consumes := true
 		for element := range n.Iterator() {
 			if !t.checkRecursion(element, ruleReached) {
-				return false
+				consumes = false
 			}
 		}
-		return true
+		return consumes
+	case TypePeekFor, TypePeekNot, TypeQuery, TypeStar:
+		/* never consumes for its caller, but its operand runs at the same position */
+		t.checkRecursion(n.Front(), ruleReached)
+		return false
 	case TypeSequence:
 		return slices.ContainsFunc(slices.Collect(n.Iterator()), func(n *node) bool {
 			return t.checkRecursion(n, ruleReached)
